@@ -47,6 +47,38 @@ type c14Case struct {
 	Unique  bool     `json:"unique_logger"`
 	// scan errors are logged from another goroutine while results are being written (command/root.go does exactly that)
 	ErrorsEvery int `json:"concurrent_error_every_us,omitempty"`
+	// results travel through scan.ResultChan (as every scan's results do) to a writer that accepts nothing at first
+	ViaResultChan bool `json:"through_result_chan,omitempty"`
+	StallMs       int  `json:"writer_stalled_for_ms,omitempty"`
+}
+
+// c14Out is the logger's writer: optionally stalled at first, safe to inspect while the logger is writing
+type c14Out struct {
+	mu    sync.Mutex
+	buf   bytes.Buffer
+	lines int
+	stall time.Duration
+	once  sync.Once
+}
+
+func (w *c14Out) Write(p []byte) (int, error) {
+	w.once.Do(func() { time.Sleep(w.stall) })
+	w.mu.Lock()
+	defer w.mu.Unlock()
+	w.lines += bytes.Count(p, []byte{'\n'})
+	return w.buf.Write(p)
+}
+
+func (w *c14Out) Lines() int {
+	w.mu.Lock()
+	defer w.mu.Unlock()
+	return w.lines
+}
+
+func (w *c14Out) String() string {
+	w.mu.Lock()
+	defer w.mu.Unlock()
+	return w.buf.String()
 }
 
 func c14Build(r c14Res) (scan.Result, map[string]interface{}) {
@@ -184,7 +216,7 @@ func c14Check(c c14Case) *kit.Verdict {
 		v.Label("unique")
 	}
 	v.NonTrivial = len(c.Results) >= 2 && hostile
-	var out bytes.Buffer
+	out := &c14Out{stall: time.Duration(c.StallMs) * time.Millisecond}
 	c14Stderr.Lock()
 	saved := os.Stderr
 	if c.ErrorsEvery > 0 {
@@ -194,7 +226,7 @@ func c14Check(c c14Case) *kit.Verdict {
 			os.Stderr = null
 		}
 	}
-	lg, err := NewLogger(&out, "c14", JSON())
+	lg, err := NewLogger(out, "c14", JSON())
 	os.Stderr = saved
 	c14Stderr.Unlock()
 	if err != nil {
@@ -208,9 +240,20 @@ func c14Check(c c14Case) *kit.Verdict {
 	seen := map[string]bool{}
 	ch := make(chan scan.Result, 8)
 	done := make(chan struct{})
+	ctx, cancel := context.WithCancel(context.Background())
+	defer cancel()
+	var rc scan.ResultChan
+	if c.ViaResultChan {
+		rc = scan.NewResultChan(ctx, 1000)
+		v.Label("through-result-chan")
+	}
 	go func() {
 		defer close(done)
-		logger.LogResults(context.Background(), ch)
+		if rc != nil {
+			logger.LogResults(ctx, rc.Chan())
+			return
+		}
+		logger.LogResults(ctx, ch)
 	}()
 	stopErrs := make(chan struct{})
 	errsDone := make(chan struct{})
@@ -242,9 +285,21 @@ func c14Check(c c14Case) *kit.Verdict {
 		} else {
 			wants = append(wants, want)
 		}
-		ch <- res
+		if rc != nil {
+			rc.Put(res)
+		} else {
+			ch <- res
+		}
 	}
 	close(ch)
+	if rc != nil {
+		// the result channel ends with the scan context: wait until everything expected has been written (or 30 s)
+		for deadline := time.Now().Add(30 * time.Second); out.Lines() < len(wants) && time.Now().Before(deadline); {
+			time.Sleep(2 * time.Millisecond)
+		}
+		time.Sleep(10 * time.Millisecond)
+		cancel()
+	}
 	select {
 	case <-done:
 	case <-time.After(30 * time.Second):
@@ -391,6 +446,27 @@ func TestC14JSON(t *testing.T) {
 
 var c14Stderr sync.Mutex
 
+func TestC14Backlog(t *testing.T) {
+	kit.Run(t, kit.Spec[c14Case]{
+		Prop: "C14",
+		Rule: "2500..8000 short results (tcp/icmp/arp/udp, sequence number in port and address) produced by one goroutine into scan.NewResultChan(1000) - the hand-off every scan uses - and logged by the JSON logger to a writer that accepts nothing for the first 50..300 ms, so both 1000-slot buffers fill up and the producer blocks; with and without de-duplication. Oracle as TestC14JSON: one faithful line per result, in production order. non-trivial: always; distinct by case",
+		Gen: func(t *rapid.T) c14Case {
+			n := rapid.SampledFrom([]int{2500, 4000, 8000}).Draw(t, "n")
+			c := c14Case{ViaResultChan: true, StallMs: rapid.SampledFrom([]int{50, 150, 300}).Draw(t, "stall"), Unique: rapid.IntRange(0, 3).Draw(t, "unique") == 0}
+			kind := rapid.SampledFrom([]string{"tcpsyn", "icmp", "arp", "udp", "tcpflags"}).Draw(t, "kind")
+			for i := 0; i < n; i++ {
+				c.Results = append(c.Results, c14Res{Kind: kind, S1: []byte(fmt.Sprintf("10.%d.%d.%d", i>>16&255, i>>8&255, i&255)), S2: []byte("02:00:00:00:00:01"), S3: []byte("v"), N1: uint16(i), N2: uint8(i), N3: uint8(i >> 8)})
+			}
+			return c
+		},
+		Check: func(c c14Case) *kit.Verdict {
+			v := c14Check(c)
+			v.NonTrivial = true
+			return v
+		},
+	})
+}
+
 func TestC14ConcurrentErrors(t *testing.T) {
 	kit.Run(t, kit.Spec[c14Case]{
 		Prop: "C14",
@@ -472,7 +548,13 @@ func c14Expand(c c14LargeCase) c14Case {
 		x ^= x << 17
 		return int(x % uint64(n))
 	}
-	host := func(i int) []byte { return []byte(fmt.Sprintf("10.%d.%d.%d", i>>16&255, i>>8&255, i&255)) }
+	host := func(i int) []byte {
+		if c.Hosts > 60000 {
+			// whole /16 and /14 networks (172.16.0.0/14)
+			return []byte(fmt.Sprintf("172.%d.%d.%d", 16+i>>16&255, i>>8&255, i&255))
+		}
+		return []byte(fmt.Sprintf("10.%d.%d.%d", i>>16&255, i>>8&255, i&255))
+	}
 	for r := 0; r < c.Rounds; r++ {
 		// every round visits all hosts in a scrambled order, with occasional immediate repeats
 		perm := make([]int, c.Hosts)
@@ -497,9 +579,9 @@ func c14Expand(c c14LargeCase) c14Case {
 func TestC14UniqueLarge(t *testing.T) {
 	kit.Run(t, kit.Spec[c14LargeCase]{
 		Prop: "C14",
-		Rule: "de-duplicating logger with long histories: 2..6000 distinct hosts, 2..4 live rounds, each round visiting every host in a scrambled order with occasional immediate repeats (ARP results); oracle: output = each host exactly once, at its first sighting, in order. non-trivial: >=2 hosts; distinct by case",
+		Rule: "de-duplicating logger with long histories: 2..6000 distinct hosts, or every address of a /16 or /14 (65536 / 262144 hosts), 2..4 live rounds, each round visiting every host in a scrambled order with occasional immediate repeats (ARP results); oracle: output = each host exactly once, at its first sighting, in order. non-trivial: >=2 hosts; distinct by case",
 		Gen: func(t *rapid.T) c14LargeCase {
-			return c14LargeCase{Hosts: rapid.SampledFrom([]int{2, 50, 255, 1000, 1024, 1025, 2049, 4097, 6000}).Draw(t, "hosts"),
+			return c14LargeCase{Hosts: rapid.SampledFrom([]int{2, 50, 255, 1000, 1024, 1025, 2049, 4097, 6000, 65536, 262144}).Draw(t, "hosts"),
 				Rounds: rapid.IntRange(2, 4).Draw(t, "rounds"), Mix: rapid.Uint64().Draw(t, "mix")}
 		},
 		Check: func(c c14LargeCase) *kit.Verdict {
